@@ -62,6 +62,7 @@ def run(ctx):
 
     # ---- R5 ----------------------------------------------------------------------
     _loader_details(ctx, 'C16.R5')
+    _optimized_interpreter(ctx, 'C16.R6')
 
 
 def _marker_protocol(ctx, variant):
@@ -206,7 +207,8 @@ def loader_protocol(ctx, RULE_PATCH, RULE_PUB):
                         # a hooked import of another thread is in flight: its variant is installed when this one starts
                         if not (conf and not excluded):
                             continue
-                        ext.cache_from_source = 'the-variant-installed-by-another-thread'
+                        # (the very function object a hooked import installs, once known from an earlier scenario)
+                        ext.cache_from_source = variant[0] if variant else 'the-variant-installed-by-another-thread'
                         outcome = 'returns'
                     olds = [(LOADER, n, F.patch_global(LOADER, n, ext)) for n in ext_names]
                     olds += [(LOADER, n, F.patch_global(LOADER, n, _Regex(excluded))) for n in regexes]
@@ -458,3 +460,62 @@ def _loader_details(ctx, RULE):
                    'same order, only the source loader replaced by the beartype source loader', ok, f'{details!r} evaluates to {out!r}')
     finally:
         F.patch_global(Q, 'SOURCE_SUFFIXES', saved_g)
+
+
+def _optimized_interpreter(ctx, RULE):
+    """Under python -O the decorator and the hooks reduce to no-ops (asserts are stripped, so is the checking): a hooked module
+    compiled by an optimised interpreter that does *not* stand down lands, optimised, in the cache file plain runs share."""
+    from sa.fold import FuncVal, _Abort, _Raise, _call_function
+    from . import _gen
+    F = _gen.engines(ctx)[0].f
+    Q = 'beartype._util.py.utilpyinterpreter'
+    mm = ctx.repo.mod(Q)
+    env = F.module_env(Q)
+    fn = env.get('is_python_optimized')
+    ctx.require(isinstance(fn, FuncVal), 'anchor vanished: is_python_optimized')
+    ctx.rule(RULE, 'whether the interpreter is optimised is the interpreter\'s word first: is_python_optimized(), interpreted over '
+             '{__debug__ true, false} × {PYTHONOPTIMIZE unset, empty, "0", "1", "2", not a number}, is true whenever __debug__ is '
+             'false — whatever the environment variable says — and, under __debug__, exactly when the variable is a positive '
+             'integer; otherwise `python -O` with PYTHONOPTIMIZE=0 keeps the hooks active and writes assert-stripped code into the '
+             'beartype-tagged cache that unoptimised runs read')
+    saved = {k: env.get(k, None) for k in ('__debug__', 'TYPE_CHECKING')}
+    # the accessor of the environment (os.environ.get under an alias): scripted
+    from sa.fold import _PyCallable
+    SH = 'beartype._util.os.utilosshell'
+    ctx.require('get_shell_var_value_or_none' in F.module_env(SH), 'anchor vanished: get_shell_var_value_or_none')
+    state = {}
+    old_sh = F.patch_global(SH, 'get_shell_var_value_or_none', _PyCallable(lambda *a, **k: state['env']))
+    saved_b, saved_try = F.builtin_hook, getattr(F, 'faithful_try', False)
+
+    def bh(name, args, kw):
+        if name == 'int' and len(args) == 1 and isinstance(args[0], str):
+            try:
+                return int(args[0])
+            except ValueError:
+                raise _Raise('ValueError', f'int({args[0]!r})')
+        return saved_b(name, args, kw) if saved_b else NotImplemented
+    F.builtin_hook, F.faithful_try = bh, True
+    n = 0
+    try:
+        for debug in (True, False):
+            for label, val in (('unset', None), ('empty', ''), ('0', '0'), ('1', '1'), ('2', '2'), ('junk', 'yes')):
+                env['__debug__'] = debug
+                env['TYPE_CHECKING'] = False
+                state['env'] = val
+                try:
+                    out = _call_function(F, fn, [], {}, 1)
+                except (_Raise, _Abort) as ex:
+                    ctx.require(False, f'cannot interpret is_python_optimized: {ex}')
+                want = (not debug) or val in ('1', '2')
+                n += 1
+                ctx.ob(RULE, f'optimized:__debug__={debug}:PYTHONOPTIMIZE={label}', mm.where(fn.node),
+                       f'is_python_optimized() is {want}', out is want, f'evaluates to {out!r}')
+    finally:
+        for k, v in saved.items():
+            if v is None:
+                env.pop(k, None)
+            else:
+                env[k] = v
+        F.patch_global(SH, 'get_shell_var_value_or_none', old_sh)
+        F.builtin_hook, F.faithful_try = saved_b, saved_try
+    ctx.floor(RULE, n, 12, 'interpreter states')
